@@ -255,3 +255,75 @@ Example C06_L2_example :
   | _ => False
   end.
 Proof. vm_compute. repeat split; try reflexivity. discriminate. Qed.
+
+(* ===== the matrix built by the readers (QSread_prob -> rawlp.c buildMatrix + presolve.c ILLlp_add_logicals; Store.RawLoad) =====
+   Input: per surviving column its raw list in list order (row numbers after rowindex[.]), per row the coefficient of its
+   logical.  Tie: checks/C06.py writes LP and MPS files (duplicate coefficients of one (row, column) pair, columns that occur
+   in the objective only, 'N' rows, every sense), reads them with mpq_QSread_prob and compares the raw arrays of the library
+   with lib_load_raw_c of the extracted model (exact), and the query view with the reference problem with merged columns. *)
+From QSX Require Import Store.RawLoad Store.NzInv.
+Open Scope nat_scope.
+
+(* buildMatrix counts (pass 1) as many distinct rows as it later writes (pass 2): its internal error "problem with matrix" is unreachable *)
+Theorem C06_raw_count_rows_merge : forall c, length (merge_col c) = count_rows [] c.
+Proof. exact count_rows_merge. Qed.
+Print Assumptions C06_raw_count_rows_merge.
+
+(* duplicate coefficients: one stored entry per (row, column) pair - the later coefficients are added to the first ("Multiple
+   coefficients" is a warning); a column without duplicates is stored as it is *)
+Theorem C06_raw_merge_nodup : forall c, NoDup (map fst (merge_col c)).
+Proof. exact merge_col_nodup. Qed.
+Print Assumptions C06_raw_merge_nodup.
+
+Theorem C06_raw_merge_id : forall c, NoDup (map fst c) -> merge_col c = c.
+Proof. exact merge_col_id. Qed.
+Print Assumptions C06_raw_merge_id.
+
+(* the arrays: the compact layout of the merged columns (an empty column owns one slot), then one slot per logical, then one
+   free slot: matsize = entries + empty columns + 1 + nrows, matfree = 1, structmap = identity, rowmap[i] = nstruct + i *)
+Theorem C06_raw_load_arrays : forall rcols coefs, rcols <> [] -> coefs <> [] -> rows_in (length coefs) rcols ->
+  lib_load_raw rcols coefs = Ok {| lA := loaded_mat rcols coefs; smap := seq 0 (length rcols); rmap := seq (length rcols) (length coefs);
+                                   nzc := lsum (map (@length _) (raw_cols rcols)) + length coefs |}.
+Proof. exact lib_load_raw_spec. Qed.
+Print Assumptions C06_raw_load_arrays.
+
+(* it establishes the invariants (LWF: WF of the matrix + maps; LOG: logical columns are singletons), its abstraction is the
+   list of merged columns, and nzcount counts the stored entries *)
+Theorem C06_raw_load_ok : forall rcols coefs s, rows_in (length coefs) rcols -> lib_load_raw rcols coefs = Ok s ->
+  LWF s /\ LOG s /\ ents_of s = map merge_col rcols /\ length (smap s) = length rcols /\ length (rmap s) = length coefs /\
+  nzc s = lsum (cnt (lA s)).
+Proof. exact lib_load_raw_ok. Qed.
+Print Assumptions C06_raw_load_ok.
+
+(* the store built by the reader is a good representation of the reference problem QSload_prob builds from the merged columns
+   and the same rows: from here on C06_L2_history_safe / _history_refines apply to it *)
+Theorem C06_raw_load_is_reference_problem : forall M mx cols rows p rcols,
+  load_prob M mx cols rows = Some p -> map (fun c : colspec => nat_ents (snd c)) cols = map merge_col rcols ->
+  cols <> [] -> rows <> [] -> rows_in (length rows) rcols ->
+  exists s, lib_load_raw rcols (map (fun r : load_rowspec => coef_of_sense (snd (fst r))) rows) = Ok s /\ good s p /\ nzc s = lsum (cnt (lA s)).
+Proof. exact raw_load_refines_load_prob. Qed.
+Print Assumptions C06_raw_load_is_reference_problem.
+
+Example C06_raw_load_example :
+  (* x0: rows 1, 0 and row 1 again (2 + 5 merged into the first slot of row 1); x1: objective only (empty); x2: row 0 *)
+  match lib_load_raw [[(1, 2%Q); (0, 3%Q); (1, 5%Q)]; []; [(0, 1%Q)]] [1%Q; (-1)%Q] with
+  | Ok s => lwf_check s = true /\ ents_of s = [[(1, 7%Q); (0, 3%Q)]; []; [(0, 1%Q)]] /\ beg (lA s) = [0; 2; 3; 4; 5] /\ msize (lA s) = 7 /\ nzc s = 5
+  | _ => False
+  end.
+Proof. vm_compute. repeat split; reflexivity. Qed.
+
+(* ===== nzcount = number of stored entries (sum of matcnt), for every operation and every history ===== *)
+Theorem C06_L2_nzcount_step : forall extra_cols extra_mat fixed p s o s',
+  LWF s -> NZ s -> l2_step extra_cols extra_mat fixed p s o = Ok s' -> NZ s'.
+Proof. exact l2_step_nz. Qed.
+Print Assumptions C06_L2_nzcount_step.
+
+Theorem C06_L2_nzcount_history : forall M extra_cols extra_mat fixed l s p s',
+  refines s p -> NZ s -> l2_run M extra_cols extra_mat fixed p s l = Ok s' -> NZ s'.
+Proof. exact l2_run_nz. Qed.
+Print Assumptions C06_L2_nzcount_history.
+
+Theorem C06_L2_nzcount_load : forall extra_cols extra_mat fixed cols rows s, l2_load extra_cols extra_mat fixed cols rows = Ok s -> NZ s.
+Proof. exact l2_load_nz. Qed.
+Print Assumptions C06_L2_nzcount_load.
+Close Scope nat_scope.
